@@ -11,18 +11,26 @@ use std::io::{BufReader, BufWriter, Read, Write};
 use std::path::{Component, Path, PathBuf};
 
 /// Join a client-supplied relative path under `root`, rejecting absolute paths
-/// and any `..`/root escape (path-traversal guard).
+/// and any `..`/root escape (path-traversal guard), and anything under the hub's
+/// own `.copia` control directory: a client that can replace or remove
+/// `.copia/commit.lock` ends the mutual exclusion of every other client's commit,
+/// and List never shows what is stored there.
 fn safe_join(root: &Path, rel: &str) -> Option<PathBuf> {
     let p = Path::new(rel);
     if p.is_absolute() {
         return None;
     }
+    let mut first = true;
     for c in p.components() {
-        if matches!(
-            c,
-            Component::ParentDir | Component::RootDir | Component::Prefix(_)
-        ) {
-            return None;
+        match c {
+            Component::ParentDir | Component::RootDir | Component::Prefix(_) => return None,
+            Component::Normal(name) => {
+                if first && name == ".copia" {
+                    return None;
+                }
+                first = false;
+            }
+            Component::CurDir => {}
         }
     }
     Some(root.join(p))
